@@ -10,8 +10,8 @@ import time
 from . import tlc
 
 VERIF = tlc.VERIF
-OUT = os.path.join(VERIF, "out")
-EVID = os.path.join(VERIF, "evidence")
+OUT = os.environ.get("VERIF_OUTDIR") or os.path.join(VERIF, "out")          # (overridden by the seeded-change runner)
+EVID = os.environ.get("VERIF_EVIDDIR") or os.path.join(VERIF, "evidence")
 FINDINGS = os.path.join(VERIF, "KNOWN_FINDINGS.json")
 
 
